@@ -38,6 +38,13 @@ PROPS = {
         "probes": ["byz_hash_answer", "byz_eq_answer", "rehash_in_place", "resize_up", "tombstone_created"],
         "rule": "one evaluation = one simulated run under a byzantine hash plan (fresh value per call / periodic flips / epoch changes) and/or a byzantine equality (random, always true, always false, asymmetric) for the whole run; only the safety subset of the oracles is active (ledger, canaries, invariants I1-I4, len()==iter().count(), per-operation callback cap as divergence verdict, everything dropped exactly once at the end); non-trivial/distinct as for C01",
     },
+    "C06": {
+        "level": "exploration",
+        "quick": [("A", 30000), ("B", 5000)],
+        "thorough": [("A", 900000), ("B", 100000)],
+        "probes": ["reinsert_same_slot", "iter_hash_multi", "dup_elements", "zero_sized", "entry_at_full_load", "tombstone_created", "rehash_in_place", "tombstone_reused"],
+        "rule": "one evaluation = one simulated run of HashTable operations (find, find_mut, find_entry, entry, insert_unique, OccupiedEntry::remove then VacantEntry::insert, iter_hash(_mut), retain, extract_if, drain, clear, reserve, shrink, get_many_mut, clone) with caller-supplied hashes drawn from the hash plans (collisions in position bits, tag bits, both; duplicates of identical ids; zero-sized elements) against a multiset model; non-trivial/distinct as for C01",
+    },
     "C08": {
         "level": "exploration",
         "quick": [("A", 30000)],
@@ -115,7 +122,7 @@ NOT_APPLICABLE = {
     "C16": "Send/Sync markers, variance and borrow lifetimes are decided entirely by the type checker on generic obligations: there is no execution, schedule or fault for a deterministic simulator to drive or observe (DESIGN section 11)",
     "C17": "pure integer arithmetic whose stated quantifier is an exhaustive enumeration of capacities x sizes x alignments: no schedule, clock, fault or interleaving; seeded simulation would only be input generation under another name (DESIGN section 11)",
 }
-for _p in ["C06", "C07", "C18", "C19", "C20"]:
+for _p in ["C07", "C18", "C19", "C20"]:
     NOT_APPLICABLE.setdefault(_p, NA_TECH)
 
 _TB = "trusts rustc/std, the system allocator under SimAlloc, the reference model and oracles in hbsim; x86-64 only; sampling, not enumeration"
@@ -153,7 +160,7 @@ LEVEL_TEXT = {
     "C08": {
         "text": "seeded search over reachable states (occupied slots and tombstones) with the allocator seam as measuring instrument: the stated inequalities of the capacity contract are checked exactly as stated (no exact capacities), including zero allocator calls while filling spare capacity and shrink bounds against an actually constructed fresh with_capacity table",
         "design_ref": "DESIGN.md section 9 C08",
-        "note": _TB + "; HashMap only so far (sets/tables share RawTable::reserve/shrink_to)",
+        "note": _TB + "; HashMap and HashTable worlds (HashSet is a HashMap<T, ()> and shares the code paths)",
         "technique": "deterministic simulation (fault-free configuration) with a counting allocator seam",
     },
     "C09": {
@@ -177,7 +184,7 @@ LEVEL_TEXT = {
     "C12": {
         "text": "fault enumeration over allocator refusals: try_reserve makes at most one allocator request, so refusing request 1 (or everything, or anything above a byte limit) in every reached state with boundary amounts enumerates the fault space per state; decided by Result classification against the stated overflow band, layout validity at the seam, and bit-for-bit state equality (dump, len, capacity, blocks, drop count) after an error",
         "design_ref": "DESIGN.md section 9 C12",
-        "note": _TB + "; zero-sized elements are covered by the table world",
+        "note": _TB,
         "technique": "deterministic simulation with fault injection: allocator refusal of the j-th request / byte limit",
     },
     "C13": {
@@ -197,5 +204,11 @@ LEVEL_TEXT = {
         "design_ref": "DESIGN.md section 9 C15",
         "note": _TB,
         "technique": "deterministic simulation with fault injection: byzantine equality (matches several entries) on multi-key mutable borrows",
+    },
+    "C06": {
+        "text": "seeded search over HashTable histories with literal 64-bit hashes taken from adversarial plans (including duplicates and zero-sized elements) against a multiset model: every stored element is found through its hash after every step, removed ones never, len counts duplicates, iter_hash(h) covers exactly the stored elements inserted with h without repeats, remove-then-VacantEntry::insert re-inserts in place with unchanged accounting, entry() works at full load",
+        "design_ref": "DESIGN.md section 9 C06",
+        "note": _TB,
+        "technique": "deterministic simulation (fault-free configuration): caller-supplied hashes from simulator-owned plans vs multiset model",
     },
 }
